@@ -114,6 +114,47 @@ static void vnote(const char *fmt, ...)
     va_end(ap);
 }
 
+// ---- the graph's edges decoded once (the walkers execute each edge many times)
+struct Pre
+{
+    int act{0};  // 1 Add, 2 Update, 3 Remove, 4 Clear
+    int w{0}, pos{0};
+    std::vector<int> perm;
+    // expectation for the state after the edge
+    int n{0};
+    std::vector<int> ws;
+    unsigned adm[17];  // bit (slot-1) set: the element in that model slot is admissible for r = j/16
+    int pick[17];      // the slot the model's own descent reaches (drift metric only)
+    std::string admText[17];
+};
+static std::vector<Pre> g_pre;
+static void decodeGraph(const vt::Graph &g)
+{
+    g_pre.assign(g.edges.size(), Pre());
+    for (std::size_t i = 0; i < g.edges.size(); ++i)
+    {
+        const vt::Edge &e = g.edges[i];
+        Pre &p = g_pre[i];
+        p.act = e.a == "Add" ? 1 : e.a == "Update" ? 2 : e.a == "Remove" ? 3 : e.a == "Clear" ? 4 : 0;
+        if (p.act == 1 || p.act == 2)
+            p.w = e.args["w"].get<int>();
+        if (p.act == 2 || p.act == 3)
+            p.pos = e.args["pos"].get<int>();
+        for (auto &lab : e.perm)
+            p.perm.push_back(lab.get<int>());
+        p.n = e.exp["n"].get<int>();
+        p.ws = e.exp["ws"].get<std::vector<int>>();
+        for (int j = 0; j <= 16; ++j)
+        {
+            p.adm[j] = 0;
+            for (auto &slot : e.exp["adm"][j])
+                p.adm[j] |= 1u << (slot.get<int>() - 1);
+            p.pick[j] = e.exp["pick"][j].get<int>();
+            p.admText[j] = e.exp["adm"][j].dump();
+        }
+    }
+}
+
 struct Metrics
 {
     long orderDrift{0}, pickDrift{0}, samples{0}, sampleSteps{0}, zeroTotalStates{0}, boundaryChoices{0};
@@ -227,18 +268,18 @@ struct Driver
     std::vector<int> byPos;
     int nextUid{1};
 
-    bool observeAgainst(const json &exp)
+    bool observeAgainst(const Pre &exp)
     {
         std::vector<int> order;
         if (!observeBasic(order))
             return false;
-        const std::size_t n = exp["n"].get<std::size_t>();
+        const std::size_t n = (std::size_t)exp.n;
         if (pdf.size() != n || byPos.size() != n)
             return fail("size() = " + std::to_string(pdf.size()) + ", the specification expects " + std::to_string(n));
         long total = 0;
         for (std::size_t i = 0; i < n; ++i)
         {
-            int w = exp["ws"][i].get<int>();
+            int w = exp.ws[i];
             total += w;
             if (pdf.getWeight(handle[byPos[i]]) != (double)w)
                 return fail("weight of the element in model slot " + std::to_string(i + 1) + " is " +
@@ -258,28 +299,22 @@ struct Driver
         {
             const P &got = pdf.sample(j / 16.0);
             // the returned reference must be the data of a surviving element
-            int uid = 0;
-            for (auto &h : handle)
-                if (&h.second->data_ == &got)
-                    uid = h.first;
-            if (uid == 0)
+            std::size_t at = n;
+            for (std::size_t i = 0; i < n; ++i)
+                if (&handle[byPos[i]]->data_ == &got)
+                    at = i;
+            if (at == n)
                 return fail("sample(" + std::to_string(j) + "/16) returned something that is not a surviving element");
             if (!sameOrder)
                 continue;
             ++g_m.samples;
-            bool ok = false;
-            for (auto &slot : exp["adm"][j])
-                ok = ok || byPos[slot.get<std::size_t>() - 1] == uid;
-            if (exp["adm"][j].size() > 1)
+            if (exp.adm[j] & (exp.adm[j] - 1))
                 ++g_m.boundaryChoices;
-            if (!ok)
-            {
-                std::size_t at = std::find(byPos.begin(), byPos.end(), uid) - byPos.begin();
+            if (!(exp.adm[j] >> at & 1u))
                 return fail("sample(" + std::to_string(j) + "/16) returned the element at position " +
-                            std::to_string(at + 1) + " (weight " + std::to_string(weight[uid]) + ") of weights " +
-                            exp["ws"].dump() + "; admissible positions: " + exp["adm"][j].dump());
-            }
-            if (byPos[exp["pick"][j].get<std::size_t>() - 1] != uid)
+                            std::to_string(at + 1) + " (weight " + std::to_string(weight[byPos[at]]) + ") of weights " +
+                            json(exp.ws).dump() + "; admissible positions: " + exp.admText[j]);
+            if (exp.pick[j] != (int)at + 1)
                 ++g_m.pickDrift;
         }
         return true;
@@ -287,44 +322,44 @@ struct Driver
 
     bool step(const vt::Edge &e, bool obs)
     {
-        const json &a = e.args;
         const std::size_t n = byPos.size();
         int fresh = 0;
-        if (g_sh && g_base && g_sh->len < 60)
-            g_sh->edges[g_sh->len++] = (int)(&e - g_base);
-        auto slotUid = [&](const char *k) -> int {
-            std::size_t p = a[k].get<std::size_t>();
-            return p >= 1 && p <= n ? byPos[p - 1] : 0;
-        };
-        if (e.a == "Add")
+        const std::size_t ei = (std::size_t)(&e - g_base);
+        if (!g_base || ei >= g_pre.size())
+            return fail("internal: edge outside the decoded graph");
+        const Pre &p = g_pre[ei];
+        if (g_sh && g_sh->len < 60)
+            g_sh->edges[g_sh->len++] = (int)ei;
+        const int target = p.pos >= 1 && (std::size_t)p.pos <= n ? byPos[p.pos - 1] : 0;
+        if (p.act == 1)
         {
             fresh = nextUid++;
-            add(fresh, a["w"].get<int>());
+            add(fresh, p.w);
         }
-        else if (e.a == "Update")
-            update(slotUid("pos"), a["w"].get<int>());
-        else if (e.a == "Remove")
-            remove(slotUid("pos"));
-        else if (e.a == "Clear")
+        else if (p.act == 2)
+            update(target, p.w);
+        else if (p.act == 3)
+            remove(target);
+        else if (p.act == 4)
             clear();
         else
             return fail("unknown action " + e.a);
         if (!err.empty())
             return false;
         std::vector<int> np;
-        for (auto &lab : e.perm)
+        np.reserve(p.perm.size());
+        for (int L : p.perm)
         {
-            std::size_t L = lab.get<std::size_t>();
-            if (L >= 1 && L <= n)
+            if (L >= 1 && (std::size_t)L <= n)
                 np.push_back(byPos[L - 1]);
-            else if (L == n + 1 && fresh)
+            else if ((std::size_t)L == n + 1 && fresh)
                 np.push_back(fresh);
             else
                 return fail("internal: bad perm in graph");
         }
         byPos.swap(np);
         if (obs)
-            return observeAgainst(e.exp);
+            return observeAgainst(p);
         return true;
     }
 
@@ -783,6 +818,7 @@ static int work(int argc, char **argv)
     {
         vt::Graph g(argv[2]);
         g_base = g.edges.data();
+        decodeGraph(g);
         vt::Report rep;
         std::string depthMode = argc > 3 ? argv[3] : "pairs";
         long walks = argc > 4 ? atol(argv[4]) : 2000;
